@@ -33,7 +33,7 @@ REQUIRED_THEOREMS = [
     "C02_NZ_of_x_ne_zero", "C02_NZ_of_amp_off_hyperplanes", "C02_posSemidef_of_x_ne_zero", "C02_posSemidef_of_amp_off_hyperplanes",
     "C02_expand_flag", "C02_expand_flag_partial_trace",   # round 4: `expand` as the object the caller passed
     # extension round 2: the call forms as the code computes them (rank tests, unsqueeze_, broadcasting) are theorems
-    "C02_call_forms_single", "C02_call_forms_matrix", "C02_call_forms_paired", "C02_call_forms_mixed", "C02_call_forms_outcome",
+    "C02_call_forms_single", "C02_call_forms_matrix", "C02_call_forms_paired", "C02_call_forms_mixed", "C02_call_forms_outcome", "C02_call_forms_pointwise_defs",
 ]
 THEOREMS = {
     "rho": "C02_rho_eq_partial_trace (+ C02_hermitian, C02_posSemidef, C02_call_forms)",
